@@ -61,7 +61,7 @@ def check_case(ctx, c, m, corr="corr:write+read"):
 
 
 def run(ctx):
-    n = 1400 if ctx.quick() else 30000
+    n = 1400 if ctx.quick() else 12000
     cases = CC.gen_cases(ctx, n, hints=True, big=not ctx.quick())
     model = CC.run_model(ctx, [CC.expr_wr(c) for c in cases], "c01")
     hist = {}
